@@ -19,7 +19,8 @@ LABELS = ["1.0.sim", "1.1.sim", "2.0.sim", "1.1.sim+3.gabc.dirty"]
 CLOCK_DELTAS = [1, 3600, 2 * 86400, 31 * 86400, 400 * 86400, -86400, -40 * 86400]
 ENTRY_HOW = ["garbage", "prefix", "empty", "gone_class", "null"]
 LAYOUT_HOW = [("models", "wrong_columns"), ("models", "drop"), ("metadata", "wrong_columns"), ("metadata", "drop"),
-              ("metadata", "drop_keys"), ("extra", "extra_table")]
+              ("metadata", "drop_keys"), ("extra", "extra_table"), ("models", "wrong_types"), ("models", "no_pk"),
+              ("models", "extra_column"), ("metadata", "wrong_types")]
 FILE_HOW = ["garbage", "trunc0", "trunc100", "truncmid", "flip_header", "flip_page", "delete", "zero_fill"]
 GC_LAT = [0, 0, 1000, 100_000, 10_000_000, -1]
 
@@ -65,7 +66,7 @@ class Engine:
     def gen_plan(self, rng, config, tier, prop):
         n_valid = rng.randint(3, 5)
         n_broken = rng.randint(1, 2)
-        n_ws = rng.randint(0, 1)
+        n_ws = rng.randint(0, 2)
         n_pool = n_valid + n_broken + n_ws
         faults = config == "faults"
         # swarm: enabled op kinds
@@ -297,7 +298,7 @@ class Engine:
                         for (h, v), (lh, blob) in rows_before.items():
                             if v == label and h in hash_to_idx:
                                 present |= 1 << hash_to_idx[h]
-                                if lh is not None and lh < clock.now_us - 86400 * 1_000_000:
+                                if isinstance(lh, int) and lh < clock.now_us - 86400 * 1_000_000:
                                     stale |= 1 << hash_to_idx[h]
                     akey = "%s|%d|%d|%d|%d|%s|%s%s" % (fclass, initialised, label_i, present, stale,
                                                         "crash" if op["crash_at"] else "parse",
@@ -435,7 +436,7 @@ class Engine:
                 return True
             finally:
                 c.close()
-        except sqlite3.Error:
+        except Exception:  # incl. UnicodeDecodeError when a BLOB sits in a TEXT column of a foreign layout
             return False
 
     def _corrupt_layout(self, dbpath, op):
@@ -451,6 +452,21 @@ class Engine:
                 elif how == "wrong_columns":
                     c.execute("DROP TABLE IF EXISTS metadata")
                     c.execute("CREATE TABLE metadata (key TEXT, val TEXT, extra TEXT)")
+                elif how == "wrong_types" and t == "models":
+                    # the right column names and key, other declared types (SQLite then stores other value types)
+                    c.execute("DROP TABLE IF EXISTS models")
+                    c.execute("CREATE TABLE models (txt_hash TEXT, pymoca_version TEXT, data TEXT, last_hit TEXT, "
+                              "PRIMARY KEY (txt_hash, pymoca_version))")
+                elif how == "wrong_types":
+                    c.execute("DROP TABLE IF EXISTS metadata")
+                    c.execute("CREATE TABLE metadata (key TEXT, value BLOB, PRIMARY KEY (key))")
+                elif how == "no_pk":
+                    c.execute("DROP TABLE IF EXISTS models")
+                    c.execute("CREATE TABLE models (txt_hash TEXT, pymoca_version TEXT, data BLOB, last_hit TIMESTAMP INTEGER)")
+                elif how == "extra_column":
+                    c.execute("DROP TABLE IF EXISTS models")
+                    c.execute("CREATE TABLE models (txt_hash TEXT, pymoca_version TEXT, data BLOB, last_hit TIMESTAMP INTEGER, "
+                              "note TEXT, PRIMARY KEY (txt_hash, pymoca_version))")
                 elif how == "drop":
                     c.execute("DROP TABLE IF EXISTS %s" % t)
                 elif how == "drop_keys":
